@@ -212,6 +212,11 @@ def strategy(tier):
         for ii in range(n_isa):
             ictl = '%09d' % (ii + 1)
             isa = x12ref.make_isa(icvn=icvn, ctl=ictl)
+            # the caller's ISA11 is whatever the source had: 'U', a repetition separator, something else
+            isa11 = draw(st.sampled_from([c for c in ['U', '^', 'U', '#', '='] if c not in (term, ele, sub) and c not in src]))
+            isa = isa[:82] + isa11 + isa[83:]
+            if isa11 == 'U' and icvn == '00501':
+                classes.add('5010-isa11-U')
             ops.append(isa)
             ngs = draw(st.sampled_from([0, 1, 1, 2, 3]))
             for gi in range(ngs):
@@ -224,7 +229,7 @@ def strategy(tier):
                     nb = draw(st.integers(0, 6))
                     have_clm = False
                     for b in range(nb):
-                        k = draw(st.sampled_from(['REF', 'NM1', 'SV1', 'CLM', 'LX', 'DTP']))
+                        k = draw(st.sampled_from(['REF', 'NM1', 'SV1', 'CLM', 'LX', 'DTP', 'EMPTY']))
                         if k == 'LX' and not have_clm:
                             k = 'CLM'
                         if k == 'CLM':
@@ -236,6 +241,10 @@ def strategy(tier):
                             ops.append('SV1*HC:%s:%s*%s*UN*1~' % (draw(vals), draw(vals) or 'M', draw(vals) or '1'))
                         elif k == 'REF':
                             ops.append('REF*%s*%s~' % (draw(vals) or 'EA', draw(vals) or 'Z'))
+                        elif k == 'EMPTY':
+                            # a segment without data is still a segment (and is counted)
+                            ops.append(draw(st.sampled_from(['NTE~', 'REF**~', 'K3*~'])))
+                            classes.add('empty-body-segment')
                         elif k == 'DTP':
                             ops.append('DTP*472*D8*20040101~')
                         else:
